@@ -918,3 +918,109 @@ Proof.
       exact (Hfin3 _ _ _ _ _ _ _ _ _ _ _ Hin Hrst).
     + exact (Htail _ false _ _ _ _ Hin).
 Qed.
+
+(* ---- the options echoed in the 4.02 of coap_dispatch(): only options of the request, only
+        offending ones (unknown critical, or a non-repeatable number), never Content-Format,
+        Hop-Limit or OSCORE ---- *)
+Lemma add_all_subset : forall l m o, In o (dp_add_all m l) -> In o l.
+Proof.
+  induction l as [|[n v] t IH]; intros m o; cbn [dp_add_all]; [tauto|].
+  destruct ((n =? m) && negb (dp_repeatable n)).
+  - intros H. right. eapply IH. exact H.
+  - intros [<- | H]; [left; reflexivity|right; eapply IH; exact H].
+Qed.
+
+Lemma mem_filter_ne : forall n k l,
+  dp_mem n (filter (fun j => negb (j =? k)) l) = true -> dp_mem n l = true /\ n <> k.
+Proof.
+  intros n k l. unfold dp_mem. induction l as [|j t IH]; cbn [filter existsb]; [discriminate|].
+  destruct (j =? k) eqn:E; cbn [negb].
+  - intros H. destruct (IH H) as [H1 H2]. split; [rewrite H1; apply orb_true_r|exact H2].
+  - cbn [existsb]. intros H. apply orb_true_iff in H as [H | H].
+    + split; [rewrite H; reflexivity|]. lia.
+    + destruct (IH H) as [H1 H2]. split; [rewrite H1; apply orb_true_r|exact H2].
+Qed.
+
+Lemma fget_funset : forall f k n, dp_fget (dp_funset f k) n = true -> dp_fget f n = true /\ n <> k.
+Proof.
+  intros f k n. unfold dp_fget, dp_funset. cbn [f_long f_short].
+  destruct (255 <? n); apply mem_filter_ne.
+Qed.
+
+Lemma mem_app_one : forall n k l, dp_mem n (l ++ [k]) = true -> dp_mem n l = true \/ n = k.
+Proof.
+  intros n k l. unfold dp_mem. rewrite existsb_app. cbn [existsb]. rewrite orb_false_r.
+  intros H. apply orb_true_iff in H as [H | H]; [left; exact H|right; lia].
+Qed.
+
+Lemma fget_fset : forall f k n, dp_fget (snd (dp_fset f k)) n = true -> dp_fget f n = true \/ n = k.
+Proof.
+  intros f k n. unfold dp_fset.
+  destruct (dp_fget f k); [cbn [snd]; auto|].
+  destruct (255 <? k) eqn:Ek.
+  - destruct (len (f_long f) <? 2); cbn [snd]; [|auto].
+    unfold dp_fget. cbn [f_long f_short]. destruct (255 <? n); [apply mem_app_one|auto].
+  - destruct (len (f_short f) <? 6); cbn [snd]; [|auto].
+    unfold dp_fget. cbn [f_long f_short]. destruct (255 <? n); [auto|apply mem_app_one].
+Qed.
+
+Lemma crit_loop_flt : forall known pctx l last s n,
+  dp_fget (cs_flt (dp_crit_loop known pctx l last s)) n = true ->
+  dp_fget (cs_flt s) n = true \/ lm_unk known pctx n = true \/ dp_repeatable n = false.
+Proof.
+  induction l as [|[k v] t IH]; intros last s n; cbn [dp_crit_loop]; [auto|].
+  set (s1 := match dp_crit_kind_of known pctx k with
+             | CritKnown => s
+             | CritUnknown => mkCs false (snd (dp_fset (cs_flt s) k)) (cs_crit s)
+             | CritProxyFwd => mkCs (cs_ok s) (cs_flt s) true end).
+  assert (Hs1 : dp_fget (cs_flt s1) n = true ->
+                dp_fget (cs_flt s) n = true \/ lm_unk known pctx n = true).
+  { unfold s1, lm_unk. destruct (dp_crit_kind_of known pctx k) eqn:EK; cbn [cs_flt]; auto.
+    intros H. apply fget_fset in H as [H | ->]; [auto|]. right. rewrite EK. reflexivity. }
+  destruct ((last =? k) && negb (dp_repeatable k)) eqn:Er.
+  - destruct (dp_fset (cs_flt s1) k) as [stored f2] eqn:Ef.
+    assert (Hf2 : dp_fget f2 n = true -> dp_fget (cs_flt s1) n = true \/ n = k).
+    { intros H. replace f2 with (snd (dp_fset (cs_flt s1) k)) in H by (rewrite Ef; reflexivity).
+      apply fget_fset. exact H. }
+    assert (Hk : dp_repeatable k = false).
+    { apply andb_true_iff in Er as [_ Er]. destruct (dp_repeatable k); [discriminate|reflexivity]. }
+    destruct stored.
+    + intros H. apply IH in H. cbn [cs_flt] in H. destruct H as [H | H]; [|auto].
+      apply Hf2 in H as [H | ->]; [|auto]. apply Hs1 in H. tauto.
+    + cbn [cs_flt]. intros H. apply Hf2 in H as [H | ->]; [|auto]. apply Hs1 in H. tauto.
+  - intros H. apply IH in H. destruct H as [H | H]; [|auto]. apply Hs1 in H. tauto.
+Qed.
+
+Theorem echo_sound : forall cfg req o,
+  In o (m_opts (match sp_err402_direct cfg req with EvTx _ m => m | _ => dp_empty 0 0 end)) ->
+  In o (dp_fix_block2 cfg req) /\
+  (sp_is_unknown cfg req (fst o) = true \/ dp_repeatable (fst o) = false) /\
+  fst o <> DP_CONTENT_FORMAT /\ fst o <> DP_HOP_LIMIT /\ fst o <> DP_OSCORE.
+Proof.
+  intros cfg req o. unfold sp_err402_direct, dp_error. cbn [m_opts]. unfold dp_error_opts.
+  intros H. apply add_all_subset in H. apply filter_In in H as [Hin Hf].
+  apply fget_funset in Hf as [Hf H9]. apply fget_funset in Hf as [Hf H16].
+  apply fget_funset in Hf as [Hf H12].
+  split; [exact Hin|]. split; [|auto].
+  unfold dp_check_critical in Hf. apply crit_loop_flt in Hf. cbn [cs_flt] in Hf.
+  rewrite dp_fget_empty in Hf. destruct Hf as [Hf | [Hf | Hf]]; [discriminate|left|right; exact Hf].
+  exact Hf.
+Qed.
+
+(* ---- the behaviour repaired by /repo 592fce7 is outside the relation: a Reset in reply to the
+        multicast NON of corpus/C10/mcast_rst.case (unknown critical option 13) ---- *)
+Example mcast_reset_refused :
+  let req := mkMsg 1 1 4660 [] [(11, [97]); (13, [])] [] in
+  dp_req_wf req /\ dp_in_scope ex_cfg ex_handler req /\
+  ~ dp_allowed ex_cfg ex_handler true req [EvTx false (dp_empty NR_RST 4660)] /\
+  dp_allowed ex_cfg ex_handler true req [] /\
+  dp_allowed ex_cfg ex_handler false req [EvTx false (dp_empty NR_RST 4660)].
+Proof.
+  cbv zeta. split; [repeat constructor; cbn; lia|].
+  split; [split; [discriminate|split; [intros i; vm_compute; discriminate|intros H; vm_compute in H; discriminate]]|].
+  split; [|split].
+  - unfold dp_allowed. vm_compute. intros H.
+    repeat (destruct H as [H | H]; [discriminate H|]). exact H.
+  - unfold dp_allowed. vm_compute. auto.
+  - unfold dp_allowed. vm_compute. auto.
+Qed.
